@@ -120,7 +120,7 @@ def parse_contract(path):
                     getattr(cur, section).append(Clause("%s%d" % (section[:3], n), [], t, section))
             elif section == "at":
                 ev, props = sect_arg
-                cur.at[ev] = (props, text)
+                cur.at.setdefault(ev, []).append((props, text))
             elif section == "loop":
                 key, props = sect_arg
                 cur.loops[key] = (props, text)
@@ -235,7 +235,7 @@ class Assembled:
         return hits
 
 
-def splice_fn(a, item, uc, group_props, canary=False):
+def splice_fn(a, item, uc, group_props, canary=False, drop_hints=()):
     """item: vx output (formatted text); uc: UnitContract or None. Emits into Assembled a."""
     text = item["ftext"]
     uid = item["id"]
@@ -262,8 +262,11 @@ def splice_fn(a, item, uc, group_props, canary=False):
     if uc:
         for c in uc.ensures + uc.requires:
             all_props.update(c.props)
-        for k, (p, _) in list(uc.at.items()) + list(uc.loops.items()):
+        for k, (p, _) in list(uc.loops.items()):
             all_props.update(p)
+        for k, lst in uc.at.items():
+            for (p, _) in lst:
+                all_props.update(p)
         unit_safety = uc.safety if uc.safety is not None else sorted(all_props)
     else:
         unit_safety = []
@@ -311,9 +314,11 @@ def splice_fn(a, item, uc, group_props, canary=False):
         if m:
             ev = m.group(1)
             if uc and ev in uc.at:
-                props, t = uc.at[ev]
                 used_at.add(ev)
-                out.append((t, "at", ev, props or unit_safety))
+                for hk, (props, t) in enumerate(uc.at[ev]):
+                    lab = "%s/%d" % (ev, hk + 1)
+                    if (uid, lab) not in drop_hints:
+                        out.append((t, "at", lab, props or unit_safety))
             i += 1
             continue
         m = re.match(r'^\s*vx_loop!\(\s*"([^"]+)"(?:\s*,\s*"([^"]*)")?(?:\s*,\s*"([^"]*)")?\s*,?\s*\);\s*$', ln)
@@ -417,7 +422,7 @@ def extract(group, workdir):
     return items
 
 
-def assemble(group, items, units, preamble, canary=False):
+def assemble(group, items, units, preamble, canary=False, drop_hints=()):
     a = Assembled()
     a.add(HEADER.rstrip("\n"))
     for p in group.get("prelude", ["prelude/q_real.rs"]):
@@ -441,7 +446,7 @@ def assemble(group, items, units, preamble, canary=False):
         # one module per unit: Verus verifies modules in parallel
         modk += 1
         a.add("} // verus!\npub mod vxm_%d { use super::*; verus! {" % modk)
-        splice_fn(a, it, uc, group_props)
+        splice_fn(a, it, uc, group_props, drop_hints=drop_hints)
         a.add("} } pub use vxm_%d::*;\nverus! {" % modk)
     if canary:
         a.add("// ---- vacuity canaries: each must FAIL")
@@ -623,4 +628,11 @@ def build_group(name, canary=True):
         c = assemble(group, items, units, preamble, canary=True)
         can_path = os.path.join(wd, "canary.rs")
         open(can_path, "w").write(c.text())
-    return {"group": group, "items": items, "units": units, "main": a, "main_path": main_path, "canary": c, "canary_path": can_path, "workdir": wd}
+    return {"group": group, "items": items, "units": units, "main": a, "main_path": main_path, "canary": c, "canary_path": can_path, "workdir": wd, "preamble": preamble}
+
+
+def rebuild_without_hints(built, drop_hints, tag="nohint"):
+    a = assemble(built["group"], built["items"], built["units"], built["preamble"], canary=False, drop_hints=drop_hints)
+    path = os.path.join(built["workdir"], "unit_%s.rs" % tag)
+    open(path, "w").write(a.text())
+    return a, path
